@@ -1236,6 +1236,29 @@ fn solve_mode_variant(mode: Mode, dir_entry_is_some: bool) -> Mode {
     mode
 }
 
+#[cfg(feature = "verif-hooks")]
+impl<D, T, const MAX_DIRS: usize, const MAX_FILES: usize, const MAX_VOLUMES: usize>
+    VolumeManager<D, T, MAX_DIRS, MAX_FILES, MAX_VOLUMES>
+where
+    D: BlockDevice,
+    T: TimeSource,
+    <D as BlockDevice>::Error: core::fmt::Debug,
+{
+    /// Verification hook: read-only copy of the pending state of an open
+    /// file: its in-memory directory entry, current offset, cluster cursor
+    /// and dirty flag.
+    pub fn verif_open_file_state(
+        &self,
+        file: RawFile,
+    ) -> Option<(DirEntry, u32, (u32, ClusterId), bool)> {
+        let data = self.data.try_borrow().ok()?;
+        data.open_files
+            .iter()
+            .find(|f| f.raw_file == file)
+            .map(|f| (f.entry.clone(), f.current_offset, f.current_cluster, f.dirty))
+    }
+}
+
 // ****************************************************************************
 //
 // Unit Tests
